@@ -20,7 +20,7 @@
     per-actor commands of runForAllActors are not interleaved in the model);
     Go's select picking the timer although the context is cancelled (one more
     scene may slip through) is not modelled: [c07_no_scene_after_cancel_partial]. *)
-From Shk Require Import Base.Prelude Model.Conduct Proofs.ConductProofs.
+From Shk Require Import Base.Prelude Model.Conduct Proofs.ConductProofs Model.Prompt Proofs.PromptProofs.
 
 (** Termination, part 1: every step other than a scene start decreases
     [measure]; [measure (init h)] = 45 bounds their number in any run. *)
@@ -83,6 +83,22 @@ Theorem c07_redirected_command_partial : forall g dies,
   pipe_open g = false -> any_alive (apply_deaths g dies) = false ->
   any_alive (fst (cancel_cmd g dies)) = false /\ snd (cancel_cmd g dies) = true.
 Proof. exact redirected_command_ends_by_itself. Qed.
+
+(** The barrier of a scene ([wg.Wait] in runScene) always completes: for every
+    mixture of line tasks started and line tasks REFUSED by a quiescing stopper
+    (a termination signal landing between the prompter's last look at the
+    stopper and the launch of the scene's lines), in every interleaving, the
+    WaitGroup counter equals the number of tasks still running, and every line
+    delivers exactly one value to errCh. *)
+Theorem c07_scene_barrier_completes : forall ls s,
+  wrun true wg_init ls = Some s ->
+  wg_count s = Z.of_nat (wg_running s) /\ (wg_reported s + wg_running s = wg_launched s)%nat.
+Proof. exact scene_barrier_completes. Qed.
+
+(** ... which is what the compensating [wg.Done] of the refusal branch is for. *)
+Theorem c07_scene_barrier_needs_refusal_done :
+  exists ls s, wrun false wg_init ls = Some s /\ wg_running s = 0%nat /\ (wg_count s > 0)%Z.
+Proof. exact scene_barrier_without_done_stuck. Qed.
 
 (** Non-vacuity: a spotlight fails in stage 1, everything is cancelled, the
     audit re-check adds a violation, the final cleanup fails; a play whose
